@@ -6,6 +6,20 @@ From Coq Require Import String.
 From OCI Require Export Base.Outcome Model.Scope.
 From OCI Require Import Proofs.Scope Proofs.ScopeAlg Proofs.ScopeOps Proofs.ScopeEval Proofs.ScopeText Proofs.ScopeLaws.
 
+(* One walk of an iterator value.  At the start of the observation of a Scope value s the
+   harness takes ONE iterator value  it := s.Iter()  and keeps it.  A walk calls either that
+   shared value (w_fresh = false) or a brand new s.Iter() (w_fresh = true) with a consumer
+   that never declines (w_lim = None) or declines its (n+1)-th item (w_lim = Some n).
+   w_nest = Some (p, same, q): while it handles item number p (counted from 0, before it
+   answers) the consumer itself walks an iterator to the end or up to limit q: the very
+   function value it is being called from (same = true) or a new s.Iter() (same = false). *)
+Record wspec := { w_fresh : bool; w_lim : option nat; w_nest : option (nat * bool * option nat) }.
+
+(* what a walk delivered, written against the first full walk o_iter: the outer consumer got
+   firstn wo_n o_iter ++ wo_rest, the nested one firstn wo_in o_iter ++ wo_irest (the harness
+   only factors out the longest common prefix; nothing is lost, nothing is judged there) *)
+Record wobs := { wo_n : nat; wo_rest : list rscope; wo_in : nat; wo_irest : list rscope }.
+
 (* everything observed on one Scope value *)
 Record sobs := {
   o_unl : bool;            (* IsUnlimited *)
@@ -18,12 +32,15 @@ Record sobs := {
   o_holds : N;             (* bit i = Holds(probe i) *)
   o_rt : bool;             (* ParseScope(s.String()).Equal(s) *)
   o_crt : bool;            (* ParseScope(s.Canonical().String()).Equal(s) *)
-  o_ceq : bool             (* s.Canonical().Equal(s) && s.Equal(s.Canonical()) *)
+  o_ceq : bool;            (* s.Canonical().Equal(s) && s.Equal(s.Canonical()) *)
+  o_walks : list wobs      (* the walks of c_sched, in order: the first half before String, Holds,
+                              Canonical and the round trips are called on s, the second half after *)
 }.
 
 Record case := {
   c_a : sexp; c_b : sexp;            (* how the two scopes were built *)
   c_probes : list rscope; c_stop : nat;
+  c_sched : list wspec;              (* the walk schedule, the same for a, b and a.Union(b) *)
   c_oa : sobs; c_ob : sobs;
   c_ou : sobs;                       (* a.Union(b) *)
   c_ab : bool; c_ba : bool;          (* a.Contains(b), b.Contains(a) *)
@@ -63,7 +80,32 @@ Definition opt_eqb {A} (eqb : A -> A -> bool) (a b : option A) : bool :=
   | _, _ => false
   end.
 
-Definition sobs_agrees (sc : scope) (probes : list rscope) (stop : nat) (o : sobs) : bool :=
+(* one walk of the iterator s.Iter() returns: the function literal of Iter is closed over s
+   alone (its cursor into others is a local of the literal), so every call of every iterator
+   value of s is the same function of the consumer *)
+Definition IterW (lim : option nat) (sc : scope) : list rscope :=
+  match lim with None => IterList sc | Some n => IterStop n sc end.
+
+Definition wout (it : list rscope) (w : wobs) : list rscope := firstn (wo_n w) it ++ wo_rest w.
+Definition win (it : list rscope) (w : wobs) : list rscope := firstn (wo_in w) it ++ wo_irest w.
+
+Definition walk_agrees (sc : scope) (it : list rscope) (ws : wspec) (w : wobs) : bool :=
+  let outs := IterW (w_lim ws) sc in
+  rs_list_eqb (wout it w) outs
+  && rs_list_eqb (win it w)
+       match w_nest ws with
+       | Some (p, _, q) => if (p <? List.length outs)%nat then IterW q sc else []
+       | None => []
+       end.
+
+Fixpoint walks_agree (sc : scope) (it : list rscope) (sched : list wspec) (ws : list wobs) : bool :=
+  match sched, ws with
+  | [], [] => true
+  | s0 :: sched', w :: ws' => walk_agrees sc it s0 w && walks_agree sc it sched' ws'
+  | _, _ => false
+  end.
+
+Definition sobs_agrees (sc : scope) (probes : list rscope) (stop : nat) (sched : list wspec) (o : sobs) : bool :=
   Bool.eqb (o_unl o) (IsUnlimited sc)
   && Bool.eqb (o_empty o) (IsEmpty sc)
   && opt_eqb (opt_eqb N.eqb) (Some (o_len o)) (len_obs sc)
@@ -74,16 +116,17 @@ Definition sobs_agrees (sc : scope) (probes : list rscope) (stop : nat) (o : sob
   && opt_eqb N.eqb (Some (o_holds o)) (holds_mask sc probes)
   && Bool.eqb (o_rt o) (Equal (ParseScope (String sc)) sc)
   && Bool.eqb (o_crt o) (Equal (ParseScope (String (Canonical sc))) sc)
-  && Bool.eqb (o_ceq o) (Equal (Canonical sc) sc && Equal sc (Canonical sc)).
+  && Bool.eqb (o_ceq o) (Equal (Canonical sc) sc && Equal sc (Canonical sc))
+  && walks_agree sc (o_iter o) sched (o_walks o).
 
 Definition model_agrees (c : case) : bool :=
   let a := eval (c_a c) in
   let b := eval (c_b c) in
   let u := Union a b in
   negb (c_panic c)
-  && sobs_agrees a (c_probes c) (c_stop c) (c_oa c)
-  && sobs_agrees b (c_probes c) (c_stop c) (c_ob c)
-  && sobs_agrees u (c_probes c) (c_stop c) (c_ou c)
+  && sobs_agrees a (c_probes c) (c_stop c) (c_sched c) (c_oa c)
+  && sobs_agrees b (c_probes c) (c_stop c) (c_sched c) (c_ob c)
+  && sobs_agrees u (c_probes c) (c_stop c) (c_sched c) (c_ou c)
   && Bool.eqb (c_ab c) (Contains a b) && Bool.eqb (c_ba c) (Contains b a)
   && Bool.eqb (c_eq c) (Equal a b) && Bool.eqb (c_qe c) (Equal b a)
   && Bool.eqb (c_ua c) (Equal u a).
@@ -147,8 +190,32 @@ Fixpoint mask_of (bs : list bool) : N :=
   | b :: rest => 2 * mask_of rest + (if b then 1 else 0)
   end.
 
+(* what a consumer with limit lim is handed when the complete ascending sequence is it *)
+Definition take (lim : option nat) (it : list rscope) : list rscope :=
+  match lim with None => it | Some n => firstn (S n) it end.
+
+(* Every walk of every iterator value of s - the first, a later one, one after walks that
+   were cut short, one started from inside the consumer of another - hands over the same
+   sequence: a Scope is an immutable set and its iterator a plain function over it. *)
+Definition walk_ok (it : list rscope) (ws : wspec) (w : wobs) : bool :=
+  let outs := firstn (wo_n w) it ++ wo_rest w in
+  let ins := firstn (wo_in w) it ++ wo_irest w in
+  rs_list_eqb outs (take (w_lim ws) it)
+  && rs_list_eqb ins
+       match w_nest ws with
+       | Some (p, _, q) => if (p <? List.length outs)%nat then take q it else []
+       | None => []
+       end.
+
+Fixpoint walks_ok (it : list rscope) (sched : list wspec) (ws : list wobs) : bool :=
+  match sched, ws with
+  | [], [] => true
+  | s0 :: sched', w :: ws' => walk_ok it s0 w && walks_ok it sched' ws'
+  | _, _ => false
+  end.
+
 Definition spec_sobs (D : option (list rscope)) (txt : option bytes)
-                     (probes : list rscope) (stop : nat) (o : sobs) : bool :=
+                     (probes : list rscope) (stop : nat) (sched : list wspec) (o : sobs) : bool :=
   match D with
   | None =>
       o_unl o && negb (o_empty o)
@@ -157,6 +224,7 @@ Definition spec_sobs (D : option (list rscope)) (txt : option bytes)
       && match o_stop o with [] => true | _ => false end
       && N.eqb (o_holds o) (mask_of (map (fun _ => true) probes))   (* contains everything *)
       && o_ceq o
+      && walks_ok (o_iter o) sched (o_walks o)
   | Some l =>
       negb (o_unl o)
       && Bool.eqb (o_empty o) (match l with [] => true | _ => false end)
@@ -168,6 +236,7 @@ Definition spec_sobs (D : option (list rscope)) (txt : option bytes)
       && (if forallb clean_rs l then o_crt o else true)
       && (if forallb clean_rs l || (match txt with Some _ => true | None => false end) then o_rt o else true)
       && o_ceq o
+      && walks_ok (o_iter o) sched (o_walks o)
   end.
 
 Definition containsb (Da Db : option (list rscope)) : bool :=
@@ -189,9 +258,9 @@ Definition obs_ok (c : case) : bool :=
   let Db := den (c_b c) in
   let eu := EUnion (c_a c) (c_b c) in
   negb (c_panic c)
-  && spec_sobs Da (text (c_a c)) (c_probes c) (c_stop c) (c_oa c)
-  && spec_sobs Db (text (c_b c)) (c_probes c) (c_stop c) (c_ob c)
-  && spec_sobs (den eu) (text eu) (c_probes c) (c_stop c) (c_ou c)
+  && spec_sobs Da (text (c_a c)) (c_probes c) (c_stop c) (c_sched c) (c_oa c)
+  && spec_sobs Db (text (c_b c)) (c_probes c) (c_stop c) (c_sched c) (c_ob c)
+  && spec_sobs (den eu) (text eu) (c_probes c) (c_stop c) (c_sched c) (c_ou c)
   && Bool.eqb (c_ab c) (containsb Da Db) && Bool.eqb (c_ba c) (containsb Db Da)
   && Bool.eqb (c_eq c) (equalb Da Db) && Bool.eqb (c_qe c) (equalb Da Db)
   && Bool.eqb (c_ua c) (containsb Da Db)
@@ -346,15 +415,31 @@ Qed.
 Lemma forallb_incl {A} (p : A -> bool) l1 l2 : incl l1 l2 -> forallb p l2 = true -> forallb p l1 = true.
 Proof. rewrite !forallb_forall. auto. Qed.
 
-Lemma sobs_sound e probes stop o :
-  sobs_agrees (eval e) probes stop o = true -> spec_sobs (den e) (text e) probes stop o = true.
+Lemma iterw_take lim sc : wf sc -> IterW lim sc = take lim (abs sc).
+Proof. intros W. destruct lim as [n|]; cbn [IterW take]; [now apply iter_stop | now apply iter_list]. Qed.
+
+(* the model's walks are the specification's walks once the first full walk is the set itself *)
+Lemma walks_sound sc sched ws :
+  wf sc -> walks_agree sc (abs sc) sched ws = true -> walks_ok (abs sc) sched ws = true.
+Proof.
+  intros W. revert ws. induction sched as [|s0 sched IH]; intros [|w ws]; cbn [walks_agree walks_ok]; auto.
+  rewrite !andb_true_iff. intros [H1 H2]. split; [|now apply IH].
+  unfold walk_agrees in H1. unfold walk_ok. cbv zeta in *. rewrite !iterw_take in H1 by auto.
+  apply andb_true_iff in H1 as [Ha Hb]. unfold wout in Ha. unfold win in Hb. apply andb_true_iff. split; [exact Ha|].
+  apply rs_list_eqb_eq in Ha. rewrite Ha. destruct (w_nest s0) as [[[p same] q]|]; [|exact Hb].
+  now rewrite iterw_take in Hb by auto.
+Qed.
+
+Lemma sobs_sound e probes stop sched o :
+  sobs_agrees (eval e) probes stop sched o = true -> spec_sobs (den e) (text e) probes stop sched o = true.
 Proof.
   set (sc := eval e). assert (W : wf sc) by apply wf_eval.
   unfold sobs_agrees. rewrite !andb_true_iff.
-  intros ((((((((((H1 & H2) & H3) & H4) & H5) & H6) & H7) & H8) & H9) & H10) & H11).
+  intros (((((((((((H1 & H2) & H3) & H4) & H5) & H6) & H7) & H8) & H9) & H10) & H11) & H12).
   apply Bool.eqb_prop in H1, H2, H9, H10, H11. apply (opt_eqb_eq _ (opt_eqb_eq _ N.eqb_eq)) in H3.
   apply rs_list_eqb_eq in H4, H5. apply beqb_eq in H6, H7. apply (opt_eqb_eq _ N.eqb_eq) in H8.
   rewrite (iter_list sc W) in H4. rewrite (iter_stop stop sc W) in H5.
+  rewrite H4 in H12. apply (walks_sound sc sched _ W) in H12. rewrite <- H4 in H12.
   unfold len_obs in H3. rewrite (len_spec sc W) in H3. unfold IsUnlimited in H1.
   pose proof (den_eval e) as Hd. fold sc in Hd. unfold spec_sobs.
   destruct (den e) as [l|].
@@ -404,18 +489,18 @@ Proof.
         apply reparse; auto. destruct t as [|c t]; [left | right; rewrite Ho; discriminate].
         unfold clean. replace (abs sc) with (@nil rscope); [reflexivity|]. symmetry.
         apply (isempty_spec sc W). destruct Hs as (_ & Hr & _ & Hoth). unfold IsEmpty. now rewrite Hr, Hoth, Hu. }
-    rewrite E10, E9, H11. apply canonical_equal.
+    rewrite E10, E9, H11, <- H4, H12, andb_true_r. apply canonical_equal.
   - rewrite Hd in *. rewrite H1. cbn [andb]. rewrite H2. unfold IsEmpty. rewrite Hd. cbn [negb].
     rewrite !andb_false_r. cbn [negb andb]. injection H3 as H3. rewrite H3.
     rewrite (abs_unlimited sc Hd) in H4, H5. rewrite H4, H5. cbn [firstn andb].
     rewrite (holds_mask_spec sc (fun _ => true) probes W) in H8 by (intros r; split; auto).
-    injection H8 as ->. rewrite N.eqb_refl, H11. apply canonical_equal.
+    injection H8 as ->. rewrite N.eqb_refl, H11, <- H4, H12, andb_true_r. apply canonical_equal.
 Qed.
 
-Lemma sobs_agrees_str sc probes stop o : sobs_agrees sc probes stop o = true -> o_str o = String sc.
+Lemma sobs_agrees_str sc probes stop sched o : sobs_agrees sc probes stop sched o = true -> o_str o = String sc.
 Proof.
   unfold sobs_agrees. rewrite !andb_true_iff.
-  intros ((((((((((H1 & H2) & H3) & H4) & H5) & H6) & H7) & H8) & H9) & H10) & H11). now apply beqb_eq.
+  intros (((((((((((H1 & H2) & H3) & H4) & H5) & H6) & H7) & H8) & H9) & H10) & H11) & H12). now apply beqb_eq.
 Qed.
 
 Lemma corr_sound c : model_agrees c = true -> obs_ok c = true.
@@ -424,8 +509,8 @@ Proof.
   destruct H as ((((((((Hp & Ha) & Hb) & Hu) & H1) & H2) & H3) & H4) & H5). unfold obs_ok.
   apply Bool.eqb_prop in H1, H2, H3, H4, H5.
   change (Union (eval (c_a c)) (eval (c_b c))) with (eval (EUnion (c_a c) (c_b c))) in Hu.
-  pose proof (sobs_agrees_str _ _ _ _ Ha) as Hastr. pose proof (sobs_agrees_str _ _ _ _ Hu) as Hustr.
-  rewrite Hp, (sobs_sound _ _ _ _ Ha), (sobs_sound _ _ _ _ Hb), (sobs_sound _ _ _ _ Hu). cbn [andb].
+  pose proof (sobs_agrees_str _ _ _ _ _ Ha) as Hastr. pose proof (sobs_agrees_str _ _ _ _ _ Hu) as Hustr.
+  rewrite Hp, (sobs_sound _ _ _ _ _ Ha), (sobs_sound _ _ _ _ _ Hb), (sobs_sound _ _ _ _ _ Hu). cbn [andb].
   rewrite H1, H2, H3, H4, H5, !contains_den, !equal_den, (equalb_sym (den (c_b c))), !Bool.eqb_reflx. cbn [andb].
   assert (Hua : Equal (Union (eval (c_a c)) (eval (c_b c))) (eval (c_a c)) = containsb (den (c_a c)) (den (c_b c))).
   { rewrite <- contains_den. apply bool_eq_iff. split.
